@@ -32,6 +32,7 @@ type decision struct {
 	fn      int   // reenter: function
 	arg     int32 // reenter: argument
 	swallow bool  // reenter: swallow the inner error
+	wrap    bool  // reenter, not swallowed: panic with an error of the host's own that WRAPS the inner error
 	stack   bool  // reenter: use CallWithStack
 	ret     int32 // value to return (normal return)
 	swret   int32 // value to return after swallowing
@@ -203,6 +204,7 @@ func (r *runner) modelHost(w *plan.World, in *plan.Inst, tag, v int32) (int32, *
 		d.fn = t.Choose(len(tgt.P.Funcs))
 		d.arg = int32(t.Choose(100))
 		d.swallow = t.Chance(1, 2)
+		d.wrap = !d.swallow && t.Chance(1, 3)
 		d.stack = t.Chance(1, 3)
 		d.swret = 7
 		set()
@@ -221,6 +223,11 @@ func (r *runner) modelHost(w *plan.World, in *plan.Inst, tag, v int32) (int32, *
 			r.faults++
 			ff := *f
 			ff.Rethrown = true
+			if d.wrap {
+				// the caller sees the HOST's failure (which happens to wrap, say, another instance's exit
+				// error): never the inner error as if it were the call's own
+				ff.Kind, ff.Msg, ff.ExitCode = "host-wrapped", "", 0
+			}
 			return 0, &ff
 		}
 		return res, nil
@@ -280,6 +287,9 @@ func (r *runner) realHost(ctx context.Context, mod api.Module, stack []uint64) {
 			if d.swallow {
 				stack[0] = uint64(uint32(d.swret))
 				return
+			}
+			if d.wrap {
+				panic(&hostWrap{inner: err})
 			}
 			panic(err)
 		}
@@ -383,9 +393,19 @@ func decodeVal(t api.ValueType, v uint64) uint64 {
 }
 
 // classify maps an error returned by Call to (kind, first line).
+// hostWrap: an error of the host function's own that wraps the error of a nested call.
+type hostWrap struct{ inner error }
+
+func (h *hostWrap) Error() string { return "host function failed: " + strings.SplitN(h.inner.Error(), "\n", 2)[0] }
+func (h *hostWrap) Unwrap() error { return h.inner }
+
 func classify(err error) (kind, msg string, code uint32) {
 	if err == nil {
 		return "ok", "", 0
+	}
+	var hw *hostWrap
+	if errors.As(err, &hw) {
+		return "host-wrapped", "", 0
 	}
 	var ee *sys.ExitError
 	if errors.As(err, &ee) {
